@@ -860,8 +860,56 @@ const ENV_NAMES: [&str; 4] = [
     "setup_with_sampler-slot+in-sampled-filter",
 ];
 
+/// `c18 --repro captured-frame`: the smallest program that shows the captured-frame finding,
+/// written directly against the real API (no interpreter, no oracle). Prints what it saw.
+fn repro_captured_frame() {
+    use emit_traceparent::Traceparent;
+
+    #[emit::span(rt: *RT1, "outer")]
+    fn outer(cx: &TreeCx) {
+        let here = Traceparent::current();
+        // the documented way to carry context to another thread (book: propagating-across-threads)
+        let there = std::thread::scope(|s| {
+            s.spawn(emit::Frame::current(RT1.ctxt()).in_fn(|| {
+                with_tree(cx, || {
+                    let there = Traceparent::current();
+                    inner();
+                    there
+                })
+            }))
+            .join()
+            .unwrap()
+        });
+        println!("Traceparent::current() in `outer`:                               {}", here);
+        println!("Traceparent::current() inside the captured frame, other thread:  {}", there);
+    }
+
+    #[emit::span(rt: *RT1, "inner")]
+    fn inner() {}
+
+    let cx = TreeCx::new(vec![true]);
+    with_tree(&cx, || outer(&cx));
+    for c in cx.0.sampler_log.lock().unwrap().iter() {
+        println!("sampler called with trace/parent/span = {} -> {}", c.seen.show(), c.decision);
+    }
+    for e in cx.0.sink.take() {
+        println!(
+            "span event {:?}: trace_id={:?} span_id={:?} span_parent={:?}",
+            e.get("span_name"),
+            e.get("trace_id"),
+            e.get("span_id"),
+            e.get("span_parent")
+        );
+    }
+}
+
 fn main() {
     let args = Args::parse();
+    if args.get("repro") == Some("captured-frame") {
+        init_envs();
+        repro_captured_frame();
+        return;
+    }
     let mut r = Report::new(
         "C18",
         &args,
